@@ -84,6 +84,11 @@ func (m *Machine) envIntrinsic2(name string, fn *ssa.Function, args []Value) (Va
 				return TupleV{c.IntI(SI64, 0), m.newErr("write: file already closed", nil)}, true
 			}
 		}
+		if p, ok := w.v.(Pointer); ok {
+			if bw, isBW := p.loc.(*BufWriterObj); isBW {
+				bw.written = true
+			}
+		}
 		if ro, isResp := w.v.(*RespObj); isResp {
 			txt := m.sprintf(format, va)
 			ro.body = append(ro.body, txt.b...)
@@ -123,6 +128,9 @@ func (m *Machine) envIntrinsic2(name string, fn *ssa.Function, args []Value) (Va
 		if p, ok := bw.w.v.(Pointer); ok {
 			if fo, ok := p.loc.(*FileObj); ok && !fo.open {
 				return m.newErr("flush: file already closed", nil), true
+			}
+			if fo, ok := p.loc.(*FileObj); ok && fo.full && bw.written {
+				return m.newErr("write /dev/full: no space left on device", nil), true
 			}
 		}
 		bw.flushed = true
@@ -258,6 +266,7 @@ func (m *Machine) envIntrinsic2(name string, fn *ssa.Function, args []Value) (Va
 type BufWriterObj struct {
 	w       IfaceV
 	flushed bool
+	written bool
 }
 
 type RandObj struct{}
@@ -268,6 +277,7 @@ func (m *Machine) invokeOpaque2(iv IfaceV, method *types.Func, args []Value) (Va
 		switch x := o.loc.(type) {
 		case *BufWriterObj:
 			if method.Name() == "Write" {
+				x.written = true
 				return TupleV{m.ctx.IntI(SI64, int64(args[0].(SliceV).len)), IfaceV{}}, true
 			}
 		case *FileObj:
